@@ -125,6 +125,37 @@ pub fn scenario_prewarm(layout: &str, behaviour: &str, requests: usize) -> Scena
     sc
 }
 
+/// A mirror that logs the pooler in, then stops reading for eight seconds and resumes, while the client
+/// sends requests large enough to fill the pipe to the mirror (1 MiB in the sim): whatever the pooler
+/// does about the stalled mirror, what the mirror finally reads is whole requests.
+pub fn scenario_stall(layout: &str) -> Scenario {
+    let mut sc = scenario(layout, "healthy", "from-start", 0);
+    let big = "x".repeat(400_000);
+    let mut c = Script::new("c0").connect("alice", "db", Some("alicepw")).q(&format!("INSERT INTO t VALUES (0) /*{}*/", tag(0, 0, 0)));
+    // the first request has opened the mirror connection; now the mirror stalls
+    c = c.wait(Cond::ActorAt(1, 1));
+    for j in 1..6 {
+        c = c.q(&format!("INSERT INTO t VALUES ('{}') /*{}*/", big, tag(0, j, 0)));
+    }
+    c = c.wait(Cond::ActorsDone(vec![1]));
+    for j in 6..9 {
+        c = c.q(&format!("INSERT INTO t VALUES ({}) /*{}*/", j, tag(0, j, 0)));
+    }
+    c = c.wait(Cond::TimeMs(12_000)).terminate();
+    let m = sc.servers.iter().find(|s| s.label.contains("mirror-of-0")).map(|s| s.addr.clone()).unwrap();
+    let (m1, m2) = (m.clone(), m.clone());
+    let env_steps = vec![
+        Step::Wait(Cond::ActorAt(0, 3)),
+        Step::Call(format!("mirror {} stops reading", m), Arc::new(move |n| n.servers.get_mut(&m1).unwrap().pause_reads = true)),
+        Step::Wait(Cond::TimeMs(8000)),
+        Step::Call(format!("mirror {} reads again", m), Arc::new(move |n| n.servers.get_mut(&m2).unwrap().pause_reads = false)),
+    ];
+    sc.actors = vec![c.actor(), env("mirror-env", env_steps)];
+    sc.name = format!("C20 layout={} mirror=stalls-then-resumes big-requests", layout);
+    sc.opts.horizon_ms = 60_000;
+    sc
+}
+
 fn is_subsequence(small: &[Msg], big: &[Msg]) -> Option<usize> {
     // returns the index in `small` of the first message that cannot be matched
     let mut j = 0;
@@ -284,6 +315,9 @@ pub fn build(tier: &str) -> SimCheck {
             }
         }
     }
+    for layout in ["one-on-0", "two-on-0"] {
+        scenarios.push(scenario_stall(layout));
+    }
     for layout in LAYOUTS {
         scenarios.push(scenario_prewarm(layout, "healthy", 6));
         scenarios.push(scenario_prewarm(layout, "close-mid-stream", 6));
@@ -293,7 +327,7 @@ pub fn build(tier: &str) -> SimCheck {
         oracle: Box::new(oracle),
         bound: if thorough { 3 } else { 2 },
         limits: Limits { max_wall_s: if thorough { 2400.0 } else { 55.0 }, ..Default::default() },
-        rule: "scenario = mirror layout (one mirror on server 0, on server 1, two on server 0, one on each) x behaviour of the first mirror (healthy, down, closing after accept, SYN black hole, accepting and never answering, accepting and never reading, closing mid-stream, answering errors, slow), from the start or toggled (and recovered) at every point of the client's program (<= bound deviations); 22-30 requests (each server gets more chunks than the 10-slot mirror channel holds) alternating between primary and replica over both protocols incl. COPY and multi-kilobyte replies; also with the prewarmer plugin on (statements of the pooler's own on every new server connection)".into(),
+        rule: "scenario = mirror layout (one mirror on server 0, on server 1, two on server 0, one on each) x behaviour of the first mirror (healthy, down, closing after accept, SYN black hole, accepting and never answering, accepting and never reading, closing mid-stream, answering errors, slow), from the start or toggled (and recovered) at every point of the client's program (<= bound deviations); 22-30 requests (each server gets more chunks than the 10-slot mirror channel holds) alternating between primary and replica over both protocols incl. COPY and multi-kilobyte replies; also a mirror that stalls for eight seconds and resumes while 400 KB requests fill the pipe to it; also with the prewarmer plugin on (statements of the pooler's own on every new server connection)".into(),
         assumptions: vec![
             "'same replies as without mirrors' is judged against the direct-connection reference; 'no added waiting' as: every reply arrives in the virtual instant of its request".into(),
             "request wholeness is checked at message level (the backend cannot see the pooler's write boundaries)".into(),
